@@ -37,7 +37,7 @@ ovars == <<l, vers, snaps, latest, committed, acked, body, cur, old, everSnap, b
 
 E == Rec[l]
 IsEvent(name) == l <= Len(Rec) /\ Rec[l].a = name /\ l' = l + 1
-NoCall == [op |-> "-", ver |-> 0, body |-> "-"]
+NoCall == [op |-> "-", ver |-> 0, body |-> "-", known |-> {}]
 
 HasParentIn(L, c) == \E e \in L : e[2] = c
 ParentIn(L, c) == (CHOOSE e \in L : e[2] = c)[1]
@@ -56,7 +56,9 @@ OReset ==
 
 OCall ==
   /\ IsEvent("Call")
-  /\ cur' = [cur EXCEPT ![E.c] = [op |-> E.op, ver |-> E.ver, body |-> E.body]]
+  \* known: the committed children of the named parent when the call starts
+  /\ cur' = [cur EXCEPT ![E.c] = [op |-> E.op, ver |-> E.ver, body |-> E.body,
+                                   known |-> {e \in committed : e[1] = E.ver}]]
   /\ UNCHANGED <<vers, snaps, latest, committed, acked, body, old, everSnap, bad>>
 
 ObjVers == {<<E.objs[i][2], E.objs[i][3]>> : i \in {j \in DOMAIN E.objs : E.objs[j][1] = "v"}}
@@ -82,7 +84,10 @@ OReturn ==
                  THEN acked \cup {<<c.ver, E.ver>>} ELSE acked
      /\ bad' = (bad \/ (c.op = "get_child_version" /\ E.kind = "version"
                           /\ (<<c.ver, E.ver>> \notin committed \/ body[E.ver] # E.pay))
-                    \/ (c.op = "add_version" /\ E.kind = "ok" /\ <<c.ver, E.ver>> \notin committed))
+                    \/ (c.op = "add_version" /\ E.kind = "ok" /\ <<c.ver, E.ver>> \notin committed)
+                    \* a version that was committed before the read began and is still stored
+                    \* when it ends must be found
+                    \/ (c.op = "get_child_version" /\ E.kind = "none" /\ (c.known \cap vers) # {}))
   /\ cur' = [cur EXCEPT ![E.c] = NoCall]
   /\ UNCHANGED <<vers, snaps, latest, committed, body, old, everSnap>>
 
